@@ -830,7 +830,19 @@ def c08(tier):
     bounds = ("drivers: A1 appends 2 rows (one a node-level cancel) to batch 1's file, A2 1 row to batch 2's, A3 1 row to batch 1's (thorough), R1/R2 run process_results twice and append a submitter-level cancel, RD lists results; "
               "every pair appender+collector and every 3-driver subset without A1 with unbounded budget (all interleavings); 3-driver subsets with A1 at " + ("3 preemptions" if tier == "quick" else "unbounded budget")
               + "; all four at budget " + ("2" if tier == "quick" else "3; five drivers at budget 2"))
-    return explore_check("C08", tier, tasks, F_RULE, F_ASSUMPTIONS, dict(bounds=bounds))
+    # system-level half: runner processes (AsyncCliCommand) appending while submitter rounds collect
+    sb = (1, 0) if tier == "quick" else (2, 0)
+    sys_params = [("sz2-q1-mxN", dict(size=2, nproc=1, max_nodes=None)), ("sz2-q2-mxN", dict(size=2, nproc=None, max_nodes=None)),
+                  ("sz3-q1-mx2", dict(size=3, nproc=1, max_nodes=2))]
+    st = rep_tasks(["C08S"], sb, graphs=["indep3", "indep4", "twocomp", "wide5"] if tier == "quick" else None, params=sys_params)
+    st += rep_tasks(["C08S"], (1, 0) if tier == "quick" else sb, graphs=["chain3", "fork", "diamond", "join"], params=[("sz1-mx2", dict(size=1, max_nodes=2)), ("sz2-mxN", dict(size=2, max_nodes=None))],
+                    exit_sets=fail_sets, cancel_sets=lambda n: [(1,) * n])
+    for t in st:
+        t["id"] = "c08s-" + t["id"]
+    tasks += st
+    bounds += ("; system level: REP graphs with several jobs per batch (processes 1/2) and with failures + cancel flags, real run-jobs processes appending while other nodes' submitter rounds collect, "
+               f"{sb[0]} preemption(s), oracle: every runner row exactly once in the consolidated file and its job reported done")
+    return explore_check("C08", tier, tasks, F_RULE + "; the system-level scenarios use the mode-S rule (real CLI processes over the simulated scheduler)", F_ASSUMPTIONS, dict(bounds=bounds))
 
 
 C10_CORE = ["D", "P", "p", "d", "usa", "uca", "m", "h"]
